@@ -1,6 +1,7 @@
 //! The simulator's driver: scenario generation, execution, oracles, minimisation, replay, evidence.
 
 pub mod campaign;
+pub mod edges_extra;
 pub mod exec;
 pub mod gen;
 pub mod guard;
@@ -65,9 +66,9 @@ pub fn main(run_once: RunOnce) -> i32 {
                 threads,
                 runs,
                 max_wall,
-                evidence: verif.join("evidence").join(format!("{property}.json")),
+                evidence: std::env::var_os("VERIF_EVIDENCE_DIR").map(PathBuf::from).unwrap_or_else(|| verif.join("evidence")).join(format!("{property}.json")),
                 known: verif.join("known_findings.json"),
-                replay_dir: verif.join("replays"),
+                replay_dir: std::env::var_os("VERIF_REPLAY_DIR").map(PathBuf::from).unwrap_or_else(|| verif.join("replays")),
                 selftest: arg_val(&args, "--selftest").and_then(|s| s.parse().ok()).unwrap_or(match tier {
                     oracle::Tier::Quick => 200,
                     oracle::Tier::Thorough => 2000,
@@ -168,7 +169,7 @@ fn catalog() -> i32 {
     let mut sc = exec::Scratch::new(&base, "catalog");
     let helper = SrcFile::text("alpha/src/lib.rs", vec!["#[typeshare]\npub struct Helper { pub x: u32 }\n".into()]);
     let mut entries: Vec<(String, SrcFile)> = vec![];
-    for e in gen::EDGES {
+    for e in gen::all_edges().iter() {
         entries.push((
             format!("edge:{}", e.id),
             SrcFile { path: "alpha/src/e.rs".into(), kind: e.kind.clone(), chunks: vec![e.chunk.to_string()], raw_hex: e.raw_hex.to_string() },
@@ -197,6 +198,7 @@ fn catalog() -> i32 {
                     faults: vec![],
                     fresh_out: true,
                     role: String::new(),
+                    src_age: 0,
                 };
                 let out = sc.out();
                 let o = exec::run_invocation(&mut sc, &tree, &inv, &out);
